@@ -14,6 +14,7 @@
 -/
 import Lattigo.Proofs.BGVProgram
 import Lattigo.Proofs.EncoderTRound
+import Lattigo.Props.C05Ring
 import Mathlib.Tactic.NormNum.Prime
 
 namespace Lattigo.BGV.C05
